@@ -1494,21 +1494,117 @@ def rule_startup_interrupt(ctx, rid, r):
 
 
 # ------------------------------------------------------------------------------------------------ C07.L7
+def _digraphs():
+    """All directed graphs on 1..3 nodes (self-loops included) plus a few with 4 nodes and with parallel edges: (n, edges)."""
+    import itertools
+    out = []
+    for n in (1, 2, 3):
+        pairs = [(i, j) for i in range(n) for j in range(n)]
+        for k in range(0, 2 ** len(pairs)):
+            out.append((n, [pairs[i] for i in range(len(pairs)) if k >> i & 1]))
+    out += [(4, [(0, 1), (1, 2), (2, 3)]), (4, [(0, 1), (1, 2), (2, 3), (3, 1)]), (4, [(0, 1), (0, 2), (1, 3), (2, 3)]),
+            (4, [(0, 1), (2, 3), (3, 2)]), (2, [(0, 1), (0, 1)]), (2, [(0, 1), (0, 1), (1, 0)]), (0, [])]
+    return out
+
+
+def _is_cyclic(n, edges):
+    color = {}
+
+    def dfs(u):
+        color[u] = 1
+        for a_, b_ in edges:
+            if a_ == u:
+                if color.get(b_) == 1 or (b_ not in color and dfs(b_)):
+                    return True
+        color[u] = 2
+        return False
+    return any(u not in color and dfs(u) for u in range(n))
+
+
+def evaluate_cycle_check(m, f):
+    """Interpret candidate acyclicity assertion `f(graph)` on every small digraph: it must raise exactly on the cyclic ones.
+    -> (ok, description of the first deviation)"""
+    from ..absval import AbsRaise, Interp, Obj
+    from .rewriterules import MG
+    n_graphs = 0
+    for n, edges in _digraphs():
+        def _mg_cyclic(g_):
+            idx = {id(x): i for i, x in enumerate(g_._nodes)}
+            return _is_cyclic(len(g_._nodes), [(idx[id(a_)], idx[id(b_)]) for (a_, b_, _k) in g_._edges])
+
+        def _exc(kind):
+            return lambda *a, **k: Obj(None, {"args": a}, name=kind)
+
+        def _toposort(g_):
+            if _mg_cyclic(g_):
+                raise AbsRaise(Obj(None, {}, name="NetworkXUnfeasible"))
+            order, indeg = [], {id(x): len(g_.predecessors(x)) for x in g_._nodes}
+            ready = [x for x in g_._nodes if indeg[id(x)] == 0]
+            while ready:
+                x = ready.pop()
+                order.append(x)
+                for y in g_.successors(x):
+                    indeg[id(y)] -= 1
+                    if indeg[id(y)] == 0:
+                        ready.append(y)
+            return order
+        interp = Interp(m, ext={"networkx.HasACycle": _exc("HasACycle"), "networkx.NetworkXUnfeasible": _exc("NetworkXUnfeasible"),
+                                "networkx.NetworkXError": _exc("NetworkXError"), "networkx.exception.HasACycle": _exc("HasACycle"),
+                                "networkx.is_directed_acyclic_graph": lambda g_: not _mg_cyclic(g_),
+                                "networkx.topological_sort": _toposort, "networkx.algorithms.dag.topological_sort": _toposort})
+        g = MG(interp)
+        nodes = [Obj(None, {}, name=f"n{i}") for i in range(n)]
+        for x in nodes:
+            g.add_node(x)
+        for i, (a_, b_) in enumerate(edges):
+            g.add_edge(nodes[a_], nodes[b_], Obj(None, {"index": i}, name=f"k{i}"))
+        raised = None
+        try:
+            interp.call_func(f, None, [g], {})
+        except AbsRaise as e:
+            raised = e.value
+        n_graphs += 1
+        cyc = _is_cyclic(n, edges)
+        if bool(raised) != cyc:
+            return False, (f"on the {'cyclic' if cyc else 'acyclic'} graph with {n} node(s) and edges {edges} it "
+                           f"{'raises ' + repr(raised)[:60] if raised else 'returns normally'}"), n_graphs
+    return True, "", n_graphs
+
+
 def rule_cycle_check_first(ctx, rid, r):
+    """The engine rejects cyclic graphs before it prepares nodes or starts a thread.  Which call is the acyclicity assertion is
+    decided by *evaluating* the candidates (calls of a repo function on the engine's graph whose value is discarded) on every
+    digraph with up to three nodes: the assertion is the one that raises exactly on the cyclic graphs - however it is named
+    and however it computes that (Kahn's algorithm with any verdict idiom, depth-first search ...)."""
     m = ctx.model
     e = r.engine
     g = CFG(e, may_raise=any_call_may_raise)
-    checks = [c for c in e.own_calls() if any(f.name == "assert_acyclic" for f in m.callee_funcs(e, c))]
+    graph_param = e.pos_params[0]
+    cands = []
+    for st in e.node.body:
+        c = st.value if isinstance(st, ast.Expr) and isinstance(st.value, ast.Call) else None
+        if c is not None and c.args and is_name(c.args[0], graph_param) and len(c.args) == 1 and not c.keywords:
+            for f in m.callee_funcs(e, c):
+                if f.cls is None:
+                    cands.append((c, f))
+    checks, first_dev, n_graphs = [], "", 0
+    from ..absval import AbsRaise as _AR
+    for c, f in cands:
+        try:
+            ok_, dev, n_graphs = evaluate_cycle_check(m, f)
+        except AnalysisError as ex:
+            ok_, dev = False, f"cannot be evaluated: {ex}"
+        if ok_:
+            checks.append(c)
+        else:
+            first_dev = first_dev or f"{f.name}: {dev}"
     ok = len(checks) >= 1
-    ctx.ob(rid, f"{e.short}/has-cycle-check", ok, loc(e), "engine calls the acyclicity assertion" if ok else
-           "engine no longer asserts acyclicity: a cyclic plan ends as a silent partial run")
+    ctx.ob(rid, f"{e.short}/has-cycle-check", ok, loc(e),
+           f"engine calls an acyclicity assertion (evaluated on {n_graphs} digraphs: raises exactly on the cyclic ones)" if ok else
+           "the engine has no working acyclicity assertion: a cyclic plan ends as a silent partial run" + (f" ({first_dev})" if first_dev else ""))
     if not ok:
         return
     cn = set(g.of(stmt_of(e.module, checks[0])))
-    graph_param = e.pos_params[0]
-    ok = is_name(arg(checks[0], 0, "graph"), graph_param)
-    ctx.ob(rid, f"{e.short}/cycle-check-arg", ok, loc(e, checks[0]), "assertion receives the engine's graph" if ok else
-           "assertion is applied to something else than the engine's graph", norm(checks[0]))
     for target, what in ((r.pool_with, "thread creation"), (stmt_of(e.module, r.prep_call), "node preparation")):
         for tn in g.of(target):
             if tn.kind in ("with_exit",):
@@ -1520,31 +1616,6 @@ def rule_cycle_check_first(ctx, rid, r):
     rebinds = [b for b in e.bindings.get(graph_param, []) if b[0] != "param"]
     ctx.ob(rid, f"{e.short}/graph-not-rebound", not rebinds, loc(e), "graph parameter is never rebound" if not rebinds else
            "graph parameter is rebound after the check")
-    # assert_acyclic exhausts the Kahn generator
-    fa = next(f for f in m.callee_funcs(e, checks[0]) if f.name == "assert_acyclic")
-    fors = [n for n in fa.own_nodes() if isinstance(n, ast.For)]
-    ok = len(fors) == 1 and isinstance(fors[0].iter, ast.Call) and not any(isinstance(n, (ast.Break, ast.Return)) for n in ast.walk(fors[0]))
-    ctx.ob(rid, f"{fa.short}/exhausts-generator", ok, loc(fa), "iterates the topological sort to exhaustion" if ok else
-           "does not iterate the topological sort to exhaustion (the cycle verdict is raised only at the end)")
-    if not ok:
-        return
-    # ... on every path: nothing returns (or swallows the verdict) before/around the iteration
-    ga = CFG(fa, may_raise=lambda n: False)
-    loops_n = set(ga.of(fors[0]))
-    skip = ga.reach([ga.entry], avoid=loops_n) & {ga.exit}
-    early = [n for n in fa.own_nodes() if isinstance(n, ast.Return)]
-    ctx.ob(rid, f"{fa.short}/no-shortcut", not skip, loc(fa, early[0]) if early else loc(fa),
-           "every call of the assertion runs the full topological pass" if not skip else
-           "the acyclicity assertion can return without running the topological pass (a shortcut that is not a proof of "
-           "acyclicity lets a cycle through: the nodes on it never run and run returns as if complete)",
-           head(stmt_of(fa.module, early[0])) if early else "")
-    handlers = [n for n in fa.own_nodes() if isinstance(n, ast.ExceptHandler)]
-    ctx.ob(rid, f"{fa.short}/verdict-not-swallowed", not handlers, loc(fa), "no handler around the topological pass" if not handlers else
-           "the assertion catches exceptions around the topological pass")
-    ts = [f for f in m.callee_funcs(fa, fors[0].iter)]
-    if len(ts) != 1:
-        raise AnalysisError("topological sort generator not resolved")
-    rule_kahn(ctx, rid, ts[0])
 
 
 def rule_kahn(ctx, rid, f):
